@@ -653,7 +653,7 @@ func (cr *chainRun) run(nBlocks int) {
 // (seq = how many documents it has held): the result must be the update a fresh receiver
 // yields, field by field (unexported ones too), and must marshal to the same document.
 func (cr *chainRun) usedLine(typ string, js []byte, fresh, used reflect.Value, err error, seq int) {
-	line := map[string]any{"ev": "used", "type": typ, "how": "json", "custom": true, "fok": true, "uok": err == nil,
+	line := map[string]any{"ev": "used", "type": typ, "how": "json", "scope": true, "scalar": false, "custom": true, "fok": true, "uok": err == nil,
 		"same": false, "eq": false, "nontrivial": seq > 0, "diff": "", "chain": cr.idx, "seq": seq}
 	if err == nil {
 		var js2 []byte
